@@ -147,17 +147,18 @@ def _stamped_today(env) -> dict:
     return out
 
 
-def _real_checks(env, user: User) -> list:
-    """Statements of C05 / C06 / C11 on the real stores after a process that ended normally."""
+def _real_checks(env, user: User, only_index: bool = False) -> list:
+    """Statements of C05 / C06 / C11 on the real stores after a process that ended normally (only_index: after a process
+    that failed for no reason the user gave - only index-versus-files statements make sense then)."""
     out = []
     for d in bi.agreement_real(env):
         out.append(("agreement", d))
     hm = env.hashes()
     for p in PAGES:
         h = hashlib.sha256(env.path(p).read_bytes()).hexdigest()
-        if hm.get(p) != h:
-            out.append(("hash", (p, "the hash map does not vouch for the page after a clean exit")))
-    for p in PAGES:
+        if hm.get(p) != h and not only_index:
+            out.append(("hash", (p, "the hash map does not vouch for the page after a clean exit")))      # informational only
+    for p in ([] if only_index else PAGES):
         for ln in env.read(p).split("\n"):
             m = re.match(r"^(?:[-ox~<>])(?: P\d)? (?:(\d{6}) )?(\d{6}#\w{2,3}) (?:\S+ )*?([un]\d+)", ln)
             if not ln or ln.startswith("#") or ln == BROKEN.strip():
@@ -244,7 +245,7 @@ def one_history(args) -> dict:
                         # just refreshed must show the notes of b.zo as they are now
                         from . import emit
                         z = env.read("q.zoq")
-                        m = re.fullmatch(re.escape(f"# {ZOQ_QUERY}\n#\n{emit.STATS}") + r"[-0-9]{10} AT [0-9:]{8}\.\n\n(.*?)\n?", z, re.S)
+                        m = re.fullmatch(re.escape(f"# {ZOQ_QUERY}\n#\n{emit.STATS}") + r"[^\n]*\n\n(.*?)\n?", z, re.S)
                         texts = [n.to_string().rstrip() for n in env.compile("b.zo").notes]
                         bad = "not header + stats line + results" if not m else emit._match_entries(m.group(1), texts)
                         if bad:
@@ -276,6 +277,7 @@ def one_history(args) -> dict:
             else:
                 if not any(user.broken.values()):
                     problems.append(("crash", f"zorg {kind} failed without a broken page: {r!r} {r.err[-300:]}"))
+                    problems += _real_checks(env, user, only_index=True)
                 if kind == "create":
                     break           # a refused `db create` leaves an empty index behind: nothing is specified from here on
         return {"id": seed, "trace": trace, "problems": problems, "script": script}
